@@ -72,7 +72,7 @@ def run(ctx):
                     m["tp"] |= d["third_party"]
                     m["auto_all"] &= d["autouse"]
                     m["auto_any"] |= d["autouse"]
-            exp_unused = {k for k, c in count.items() if c == 0 and not meta[k]["tp"] and not meta[k]["auto_any"]}
+            exp_unused = {k for k, c in count.items() if c == 0 and not meta[k]["tp"] and not meta[k]["auto_all"]}
             outs = {}
             for threads in ("1", "4", "16"):
                 env = {"RAYON_NUM_THREADS": threads}
